@@ -147,7 +147,9 @@ def run_path(eng, pre, opcode, block_n=None, addr=0x1000, sym_addr=False, known=
     def ob(name, cond):
         if branch_check and name.startswith("reg:") and name not in ("reg:PC", "reg:S"):
             return True      # C05 runs: data-path registers are C04's business
-        r = eng.prove(name, z3.Implies(defined, cond) if branch_check else cond, detail=text)
+        if branch_check:
+            cond = z3.Implies(defined, cond)     # C05 runs use definedness as a hypothesis
+        r = eng.prove(name, cond, detail=text)
         if r is False and known:
             o = eng.run.obligations[-1]
             for e in known:
